@@ -432,11 +432,11 @@ func genCase(r *vproto.Rng, tier string) fcase {
 	kind := strings.Fields(kinds)[r.Intn(6)]
 	nullFile := false
 	ncols := []int{0, 1, 1, 2, 2, 3, 3, 4, 5, 6}[r.Intn(10)]
-	loose := r.Intn(5) == 0                // inputs outside the statement's quantifier allowed (model-vs-code only)
-	edgeFile := loose                      // string edge cases (NULs, over-long) allowed
-	collide := loose && r.Intn(2) == 0     // names colliding after lower-casing allowed
-	crossFile := loose && r.Intn(2) == 0   // some columns are read back with another type
-	spaces := !loose && r.Intn(10) == 0    // NUL-free strings with blanks at the ends
+	loose := r.Intn(5) == 0              // inputs outside the statement's quantifier allowed (model-vs-code only)
+	edgeFile := loose                    // string edge cases (NULs, over-long) allowed
+	collide := loose && r.Intn(2) == 0   // names colliding after lower-casing allowed
+	crossFile := loose && r.Intn(2) == 0 // some columns are read back with another type
+	spaces := !loose && r.Intn(10) == 0  // NUL-free strings with blanks at the ends
 	plans := make([]colPlan, ncols)
 	for i := range plans {
 		plans[i] = colPlan{kind: []string{"i", "f", "s"}[r.Intn(3)], edge: edgeFile, wide: loose, spaces: spaces, prec: 10}
@@ -543,8 +543,9 @@ func genCase(r *vproto.Rng, tier string) fcase {
 		}
 		return names[i]
 	}
-	if r.Intn(2) == 0 {
-		c.r.path = 'S'
+	mkS := func() spec {
+		var sp spec
+		sp.path = 'S'
 		order := make([]int, 0, ncols+2)
 		for i := 0; i < ncols; i++ {
 			if r.Intn(8) != 0 {
@@ -561,7 +562,7 @@ func genCase(r *vproto.Rng, tier string) fcase {
 		gpos := r.Intn(len(order) + 1)
 		for k := 0; k <= len(order); k++ {
 			if k == gpos {
-				c.r.sf = append(c.r.sf, sfield{"G", "", rk})
+				sp.sf = append(sp.sf, sfield{"G", "", rk})
 			}
 			if k == len(order) {
 				break
@@ -595,20 +596,61 @@ func genCase(r *vproto.Rng, tier string) fcase {
 				}
 			}
 			used[f.name] = true
-			c.r.sf = append(c.r.sf, f)
+			sp.sf = append(sp.sf, f)
 		}
 		if r.Intn(4) == 0 { // a field no column matches
-			c.r.sf = append(c.r.sf, sfield{"Unmatched9", "", []string{"i", "f", "s"}[r.Intn(3)]})
+			sp.sf = append(sp.sf, sfield{"Unmatched9", "", []string{"i", "f", "s"}[r.Intn(3)]})
 		}
-	} else {
-		c.r.path = 'F'
+		return sp
+	}
+	// field-based call: all names / subset / permuted / duplicates / none
+	mkF := func() spec {
+		sp := spec{path: 'F'}
+		variant := r.Intn(6)
 		for i := 0; i < ncols; i++ {
-			if r.Intn(8) != 0 {
-				c.r.names = append(c.r.names, casePerturb(r, strings.TrimSpace(effName(i))))
+			if variant == 1 && r.Intn(2) == 0 { // subset
+				continue
 			}
+			if variant != 1 && variant != 4 && r.Intn(8) == 0 {
+				continue
+			}
+			sp.names = append(sp.names, casePerturb(r, strings.TrimSpace(effName(i))))
+		}
+		switch variant {
+		case 2: // permuted
+			for i := len(sp.names) - 1; i > 0; i-- {
+				j := r.Intn(i + 1)
+				sp.names[i], sp.names[j] = sp.names[j], sp.names[i]
+			}
+		case 3: // duplicates
+			if len(sp.names) > 0 {
+				sp.names = append(sp.names, sp.names[r.Intn(len(sp.names))], sp.names[0])
+			}
+		case 4: // none: geometry only
+			sp.names = nil
 		}
 		if loose && r.Intn(6) == 0 {
-			c.r.names = append(c.r.names, "nosuchfield")
+			sp.names = append(sp.names, "nosuchfield")
+		}
+		return sp
+	}
+	switch r.Intn(3) {
+	case 0:
+		c.r = mkS()
+	case 1:
+		c.r = mkF()
+	default: // a reading schedule on one decoder: the call varies per row
+		c.r.path = 'M'
+		k := r.Range(2, 4)
+		for i := 0; i < k; i++ {
+			if r.Intn(3) == 0 {
+				c.r.calls = append(c.r.calls, mkS())
+			} else {
+				c.r.calls = append(c.r.calls, mkF())
+			}
+		}
+		if r.Intn(3) == 0 { // make sure a geometry-only read precedes reads with attributes
+			c.r.calls[0] = spec{path: 'F'}
 		}
 	}
 
@@ -703,6 +745,22 @@ func corpus() []fcase {
 		r:    spec{path: 'S', sf: []sfield{{"G", "", "gP"}, {"Val", "", "i"}, {"VAL", "", "i"}, {"Z", "VaL", "i"}}},
 		recs: []rec{{P(0, 0), []val{iv(1), iv(2), iv(3)}}},
 	})
+	// 7b. reading schedules on one decoder: geometry-only reads between reads with attributes, DecodeRow after DecodeRowFields
+	{
+		w := spec{path: 'F', shpTyp: 1, ff: []ffield{{"id", 'N', 10, 0}, {"name", 'C', 50, 0}}}
+		ws := spec{path: 'S', sf: []sfield{{"G", "", "gP"}, {"Id", "", "i"}, {"Name", "", "s"}}}
+		var recs []rec
+		for i := 0; i < 7; i++ {
+			recs = append(recs, rec{P(float64(i), 0), []val{iv(100 + i), sv(fmt.Sprintf("r%d", i))}})
+		}
+		all := spec{path: 'F', names: []string{"id", "name"}}
+		none := spec{path: 'F'}
+		st := spec{path: 'S', sf: []sfield{{"G", "", "gP"}, {"Id", "", "i"}, {"Name", "", "s"}}}
+		for _, sched := range [][]spec{{none, all}, {all, none, none}, {none, st}, {st, all, none}, {{path: 'F', names: []string{"name"}}, {path: 'F', names: []string{"NAME", "id", "name"}}, none, st}} {
+			out = append(out, fcase{w: w, r: spec{path: 'M', calls: sched}, recs: recs})
+			out = append(out, fcase{w: ws, r: spec{path: 'M', calls: sched}, recs: recs})
+		}
+	}
 	// 8. no geometry field in the archetype
 	out = append(out, fcase{w: spec{path: 'S', sf: []sfield{{"N", "", "i"}}}, r: spec{path: 'F'}, recs: nil})
 	// 9. EncodeFields drops an over-long value silently; Encode reports it and the row stays in the file
